@@ -13,10 +13,12 @@ NA = {
  'C25': 'finite differencing of the full pipeline',
  'C32': 'src/xml needs tinyxml2 (absent, no network) and does not lower; writer/reader are STL/exception-heavy C++',
  'C33': 'the model compiler (src/user) is string/STL/exception-heavy C++ beyond the hand-written IR executor',
+ 'C35': 'the inference of mass, centre of mass and inertia from geoms and meshes lives in the C++ model compiler (src/user/user_objects.cc, user_mesh.cc: STL containers, exceptions, virtual dispatch - does not lower to IR the executor can run) and in the iterative eigen-solver mju_eig3 (data-dependent sweeps in floating point); the only mass-property code within reach is the sysid parameterisation, claimed under C47',
  'C36': 'same compiler code as C33; no encodable implementation here',
  'C37': 'src/xml does not lower without tinyxml2; XML parsing over libstdc++ strings is out of reach',
  'C38': 'std::unordered_map/std::string/shared_ptr object graphs; no KLEE-class engine for libstdc++ containers',
  'C39': 'same as C38 (VFS is built on STL containers and strings)',
+ 'C42': 'the generators are string templating over a Schema object (f-strings, join, sorted): with symbolic tokens every formatting step concretises the atom, so a symtok run degenerates into enumerating concrete schemas one by one - enumeration, not a solver verdict; the parser that produces the Schema is claimed under C41',
  'C43': 'JAX-traced float32 programs executed by XLA; nothing symbolic survives the C boundary',
  'C45': 'JAX autodiff through XLA; same reason as C43',
  'C49': 'finite concrete diff against the compiler view - there is no input space for a solver to quantify over',
@@ -53,7 +55,7 @@ man = {
   {'name': 'llsym', 'path': 'vf/llsym.py', 'serves_properties': [c['property_id'] for c in checks if c['engine'] == 'llsym'],
    'kind_free_text': 'symbolic executor for LLVM-14 textual IR regenerated from /repo on every run (clang -S -emit-llvm), z3 back end, native replay via ctypes'},
   {'name': 'llconc', 'path': 'vf/llconc.py', 'serves_properties': [c['property_id'] for c in checks if c['engine'] == 'llconc'],
-   'kind_free_text': 'schedules as symbolic variables: transition system from IR segments, solver-checked inductive invariant'},
+   'kind_free_text': 'interleavings of IR function instances at shared-cell accesses (sequentially consistent), data symbolic, z3 decides the per-schedule claims; native replay by stall injection'},
   {'name': 'pysym', 'path': 'vf/pysym.py', 'serves_properties': [c['property_id'] for c in checks if c['engine'] == 'pysym'],
    'kind_free_text': 'real numpy code executed on object arrays of z3 terms'},
   {'name': 'symtok', 'path': 'vf/symtok.py', 'serves_properties': [c['property_id'] for c in checks if c['engine'] == 'symtok'],
